@@ -58,7 +58,7 @@ PLANS = {
     },
     "C04": {
         "level": "proof",
-        "sidecars": ["debump", "driver", "quatfit", "repair", "patching", "bumps"],
+        "sidecars": ["debump", "driver", "quatfit", "repair", "patching", "bumps", "cellproto"],
         "extras": [{"name": "c04_torsion_rank_table", "module": "tables.x_checks", "func": "c04_torsion_ranks", "python": "vt"}],
         "explanation": "set_dihedral_angle frame + rigid rotation, debump_residue frame, option flags (call trace), "
                        "template rank table X",
